@@ -101,6 +101,7 @@ fn main() {
         "C11" => dispatch(checks::c11::C11, tier, seed, replay),
         "C12" => dispatch(checks::c12::C12, tier, seed, replay),
         "C13" => dispatch(checks::c13::C13, tier, seed, replay),
+        "C14" => dispatch(checks::c14::C14, tier, seed, replay),
         "C15" => dispatch(checks::c15::C15, tier, seed, replay),
         "C16" => dispatch(checks::c16::C16, tier, seed, replay),
         "C17" => dispatch(checks::c17::C17, tier, seed, replay),
